@@ -19,6 +19,8 @@ pub struct SyncSys {
     pub deletes: bool,
     /// start from a world in which T1{p=base} exists on every replica and is synced
     pub populated: bool,
+    /// only the first `active` replicas act (the others stay brand-new until something syncs them)
+    pub active: usize,
     /// oracles
     pub c01: bool,
     pub c12: bool,
@@ -44,6 +46,7 @@ impl SyncSys {
             undo_points: false,
             deletes: true,
             populated: false,
+            active: r,
             c01: true,
             c12: false,
             c14: false,
@@ -209,7 +212,7 @@ impl Sys for SyncSys {
 
     fn actions(&self, s: &World, _left: usize) -> Vec<Act> {
         let mut out = vec![];
-        for r in 0..self.r {
+        for r in 0..self.r.min(self.active) {
             let obs = s.obs[r].clone();
             for &t in &self.tasks {
                 let present = obs.tasks.contains_key(&crate::world::replicas::tid(t));
